@@ -224,7 +224,9 @@ def run_property(prop, contract_module, tier='quick', seed=0, procs=None, extra_
         rc = 3
         for name, err in crashed:
             lines.append('CHECKER-ERROR task=%s\n%s' % (name, err))
-    if n_inst == 0:
+    level = getattr(mod, 'LEVEL', 'proof')
+    n_bounded = sum(a['instances'] for a in records.values() if a['kind'] == 'bounded')
+    if n_inst == 0 and not (level != 'proof' and n_bounded > 0):
         rc = 3
         lines.append('CHECKER-ERROR zero obligations generated for %s' % prop)
     if rc == 0 and (unsupported or undecided):
@@ -244,7 +246,7 @@ def run_property(prop, contract_module, tier='quick', seed=0, procs=None, extra_
     real_viol = [e for e in violations if not e['f']['name'].startswith('kf-probe:')]
 
     ev = dict(
-        property_id=prop, tier=tier, seed=int(seed), level='proof',
+        property_id=prop, tier=tier, seed=int(seed), level=level,
         coverage=dict(
             obligations=n_inst, discharged=n_dis,
             distinct_obligation_ids=len(records),
@@ -273,6 +275,17 @@ def run_property(prop, contract_module, tier='quick', seed=0, procs=None, extra_
         wall_s=round(time.time() - t0, 2),
         violations=len(real_viol),
     )
+    if level != 'proof':
+        # exploration-style keys: every count is measured on this run
+        bounded = [a for a in records.values() if a['kind'] == 'bounded']
+        ev['coverage'].update(
+            evaluations=n_bounded + n_inst,
+            distinct_nontrivial=sum(a['instances'] for a in bounded),
+            rule=getattr(mod, 'RULE', 'run-time contract of the real function on enumerated / seeded inputs; every case is a distinct '
+                                      '(symbol, format, option) combination and non-trivial (a complete output file is produced and read back)'),
+            explanation='bounded stand-in: contracts checked at run time by independent readers; deductive obligations (if any) are listed under obligations/discharged')
+        if not ev['coverage']['samples']:
+            ev['coverage']['samples'] = [dict(clause=a['name'], evaluations=a['instances']) for a in bounded[:5]]
     if extra_evidence:
         ev['coverage'].update(extra_evidence)
     if hasattr(mod, 'evidence_extra'):
